@@ -37,6 +37,47 @@ def known_functions():
 KNOWN_ADTS = os.path.join(HERE, "known_adts.json")
 
 
+def rename_types(facts):
+    """A struct / enum of the reference tree that is gone, while exactly one new type with the same variants and field names
+    has appeared (moved into a new module, or renamed), is that type: its new path is replaced by the reference path
+    everywhere in the facts (types of locals and fields, callee names of its impls, constants), so that rules and the
+    function-rename step keep naming it as before.  Returns [(new path, reference path)]."""
+    try:
+        with open(KNOWN_ADTS) as f:
+            known = json.load(f)
+    except OSError:
+        return []
+    now = {a["path"]: a for a in facts["adts"]}
+    missing = [m for m in known if m not in now]
+    new = [n for n in now if n not in known]
+    if not missing or not new:
+        return []
+
+    def shape(a):
+        return sorted((v["name"], [fl["name"] for fl in v["fields"]]) for v in a["variants"])
+
+    def known_shape(k):
+        return sorted((vn, [f[0] for f in fs]) for vn, fs in k.items())     # (the table is stored with sorted keys)
+    pairs = []
+    used = set()
+    for m in missing:
+        same_name = [n for n in new if n.rsplit("::", 1)[-1] == m.rsplit("::", 1)[-1] and shape(now[n]) == known_shape(known[m])]
+        cands = same_name or [n for n in new if shape(now[n]) == known_shape(known[m]) and len(known[m]) + sum(len(f) for f in known[m].values()) >= 3]
+        cands = [n for n in cands if n not in used]
+        if len(cands) == 1:
+            pairs.append((cands[0], m))
+            used.add(cands[0])
+    if not pairs:
+        return []
+    text = json.dumps(facts)
+    for n, m in sorted(pairs, key=lambda p: -len(p[0])):
+        text = text.replace(n, m)
+    fresh = json.loads(text)
+    facts.clear()
+    facts.update(fresh)
+    return pairs
+
+
 def rename_fields(facts):
     """A struct / enum variant of the reference tree whose fields kept their number, order and types but not their
     names had its fields renamed: give them their old names back everywhere they are projected, constructed or listed, so
@@ -138,6 +179,15 @@ def rename_anchors(facts, known):
     present = {j["key"]: j for j in facts["bodies"] if j["kind"] == "fn"}
     missing = [k for k in known if k not in present and not k.startswith("<") and "::<impl " not in k]
     new = [k for k in present if k not in known and not k.startswith("<") and "::<impl " not in k]
+    # trait impls moved to another module keep their identity (trait, type, method) but are spelt differently by rustc:
+    # `<Type as Trait>::m` next to the type, `module::<impl Trait for Type>::m` elsewhere
+    impl_pairs = []
+    miss_impl = {_impl_id(k): k for k in known if k not in present and _impl_id(k)}
+    for k in present:
+        if k not in known and _impl_id(k) in miss_impl:
+            impl_pairs.append((k, miss_impl[_impl_id(k)]))
+    if impl_pairs:
+        return _apply_renames(facts, impl_pairs)
     if not missing or not new:
         return []
 
@@ -202,6 +252,23 @@ def rename_anchors(facts, known):
             pairs.append((cs[0], m))
     if not pairs:
         return []
+    return _apply_renames(facts, pairs)
+
+
+def _impl_id(key):
+    """(trait, type, method) of a trait-impl function key in either spelling, else None."""
+    import re
+    k = key
+    m = re.match(r"^<(.+) as (.+)>::([A-Za-z_0-9]+)$", k)
+    if m and " as " not in m.group(1):
+        return (m.group(2), m.group(1), m.group(3))
+    m = re.match(r"^.*?::<impl (.+) for (.+)>::([A-Za-z_0-9]+)$", k)
+    if m:
+        return (m.group(1), m.group(2), m.group(3))
+    return None
+
+
+def _apply_renames(facts, pairs):
     ren = dict(pairs)
 
     def fix_op(o):
@@ -831,6 +898,7 @@ def apply(facts, known=None):
         known = known_functions()
     # renames are resolved in rounds: a function told apart from its twin only by what it calls can be recognised once
     # the renamed functions it calls have their names back
+    facts["renamed_types"] = [{"now": n, "anchor": m} for n, m in rename_types(facts)]
     facts["renamed"] = []
     for _round in range(4):
         pairs = rename_anchors(facts, known)
